@@ -266,6 +266,14 @@ func (e *em) stmt(s ast.Stmt, ind string) []string {
 			e.callStmt(c, nil, false, ind, &out)
 			return out
 		}
+		if c, ok := isBuiltinCall(call, "copy"); ok {
+			e.copyStmt(c, ind, &out)
+			return out
+		}
+		if _, ok := e.foreignCall(call); ok {
+			e.flush(ind, &out)
+			return out
+		}
 		e.fail(s, "unsupported call statement")
 	case *ast.ReturnStmt:
 		e.ret(s, ind, &out)
